@@ -36,7 +36,7 @@ Flatten(v, idxs) ==
   IF IsNil(v) THEN <<>>
   ELSE IF idxs = <<>> THEN <<v>>
   ELSE IF Head(idxs).k = "each"
-       THEN LET es == Elems(v) IN FlatSeq([i \in 1..Len(es) |-> Flatten(es[i], Tail(idxs))])
+       THEN LET es == Elems(v) IN FlatSeq(Strict([i \in 1..Len(es) |-> Flatten(es[i], Tail(idxs))]))
        ELSE Flatten(Step(v, Head(idxs)), Tail(idxs))
 
 ----------------------------------------------------------------------------
@@ -90,7 +90,7 @@ RECURSIVE TyCodeFull(_)
 TyCodeFull(T) == IF IsPrim(T) THEN TyCode(T) ELSE TyCode(T) \o TyCodeFull(T.e)
 Show(a) == IF IsNil(a) THEN <<126>> \o TyCodeFull(a.ty) ELSE a.v      \* Bytes arguments
 LowByte(l) == l[4] % 256
-Reverse(s) == [i \in 1..Len(s) |-> s[Len(s) + 1 - i]]
+Reverse(s) == Strict([i \in 1..Len(s) |-> s[Len(s) + 1 - i]])
 
 FnSem(sem, a) ==
   IF sem \in {"idb", "idi", "ida", "fld_only", "bb", "idip"} THEN (IF IsNil(a[1]) THEN Nil ELSE a[1])
@@ -111,8 +111,9 @@ FnSem(sem, a) ==
        THEN LET ps == SelectSeqNN(a) IN
             IF ps = <<>> THEN Nil
             ELSE IF ps[1].t = "bytes"
-                 THEN VBytes(FlatSeq([i \in 1..Len(ps) |-> ps[i].v]))
-                 ELSE VArr(ps[1].e, FlatSeq([i \in 1..Len(ps) |-> ps[i].v]))
+                 THEN VBytes(FlatSeq(Strict([i \in 1..Len(ps) |-> ps[i].v])))
+                 ELSE VArr(ps[1].e, FlatSeq(Strict([i \in 1..Len(ps) |-> ps[i].v])))
+  ELSE IF sem = "both" THEN IF IsNil(a[1]) \/ IsNil(a[2]) THEN Nil ELSE VBool(a[1].v /\ a[2].v)
   ELSE IF sem = "ctxfn" THEN VInt(IntOfNat(Len(a)))
   ELSE Nil
 
@@ -142,22 +143,22 @@ EvalArgValue(a, ctx, sch) ==
   IF a.k = "aidx" THEN EvalIndexValue(a.e, ctx, sch)
   ELSE IF a.k = "alit" THEN LitValue(a.v)
   ELSE IF TyLogical(a.e, sch) = TBool THEN VBool(EvalB(a.e, ctx, sch))
-  ELSE LET bs == EvalV(a.e, ctx, sch) IN VArr(TBool, [i \in 1..Len(bs) |-> VBool(bs[i])])
+  ELSE LET bs == EvalV(a.e, ctx, sch) IN VArr(TBool, Strict([i \in 1..Len(bs) |-> VBool(bs[i])]))
 
 EvalCall(c, ctx, sch) ==
   LET f == FuncOf(sch, c.name)
       n == Len(c.args)
       defs == IF IsVariadic(f) \/ Len(f.params) + Len(f.opts) <= n THEN <<>>
-              ELSE [i \in 1..(Len(f.params) + Len(f.opts) - n) |->
-                      f.opts[n - Len(f.params) + i].def]
+              ELSE Strict([i \in 1..(Len(f.params) + Len(f.opts) - n) |->
+                      f.opts[n - Len(f.params) + i].def])
   IN IF n > 0 /\ ArgMapEach(c.args[1]) > 0
      THEN LET first == EvalIndexValue(c.args[1].e, ctx, sch)
-              rest == [i \in 1..(n - 1) |-> EvalArgValue(c.args[i + 1], ctx, sch)]
+              rest == Strict([i \in 1..(n - 1) |-> EvalArgValue(c.args[i + 1], ctx, sch)])
           IN IF IsNil(first) THEN Nil
              ELSE LET es == Elems(first)
-                      rs == [i \in 1..Len(es) |-> FnSem(f.sem, <<es[i]>> \o rest \o defs)]
+                      rs == Strict([i \in 1..Len(es) |-> FnSem(f.sem, <<es[i]>> \o rest \o defs)])
                   IN VArr(RetType(c, sch), SelectSeqNN(rs))
-     ELSE FnSem(f.sem, [i \in 1..n |-> EvalArgValue(c.args[i], ctx, sch)] \o defs)
+     ELSE FnSem(f.sem, Strict([i \in 1..n |-> EvalArgValue(c.args[i], ctx, sch)]) \o defs)
 
 (* element sequence a comparison is applied to when its lhs is vector-valued *)
 CmpElems(c, ctx, sch) ==
@@ -171,7 +172,7 @@ EvalB(n, ctx, sch) ==
   IF n.k = "comb"
   THEN IF n.op = "And" THEN \A i \in 1..Len(n.items) : EvalB(n.items[i], ctx, sch)
        ELSE IF n.op = "Or" THEN \E i \in 1..Len(n.items) : EvalB(n.items[i], ctx, sch)
-       ELSE XorAll([i \in 1..Len(n.items) |-> EvalB(n.items[i], ctx, sch)])
+       ELSE XorAll(Strict([i \in 1..Len(n.items) |-> EvalB(n.items[i], ctx, sch)]))
   ELSE IF n.k = "cmp"
        THEN LET v == GetPath(EvalBase(n.lhs.id, ctx, sch), n.lhs.idx)
             IN IF IsNil(v) THEN NilDefault(n, sch) ELSE CmpSem(n, v, ctx, sch)
@@ -187,17 +188,17 @@ EvalB(n, ctx, sch) ==
 
 EvalV(n, ctx, sch) ==
   IF n.k = "comb"
-  THEN LET vs == [i \in 1..Len(n.items) |-> EvalV(n.items[i], ctx, sch)]
+  THEN LET vs == Strict([i \in 1..Len(n.items) |-> EvalV(n.items[i], ctx, sch)])
            m == LET S == {Len(vs[i]) : i \in 1..Len(vs)} IN SetMin(S)
-           At(j) == [i \in 1..Len(vs) |-> vs[i][j]]
-       IN [j \in 1..m |->
+           At(j) == Strict([i \in 1..Len(vs) |-> vs[i][j]])
+       IN Strict([j \in 1..m |->
              IF n.op = "And" THEN \A i \in 1..Len(vs) : vs[i][j]
              ELSE IF n.op = "Or" THEN \E i \in 1..Len(vs) : vs[i][j]
-             ELSE XorAll(At(j))]
+             ELSE XorAll(At(j))])
   ELSE IF n.k = "cmp"
-       THEN LET es == CmpElems(n, ctx, sch) IN [i \in 1..Len(es) |-> CmpSem(n, es[i], ctx, sch)]
+       THEN LET es == CmpElems(n, ctx, sch) IN Strict([i \in 1..Len(es) |-> CmpSem(n, es[i], ctx, sch)])
   ELSE IF n.k = "paren" THEN EvalV(n.e, ctx, sch)
-  ELSE LET bs == EvalV(n.e, ctx, sch) IN [i \in 1..Len(bs) |-> ~bs[i]]     \* not
+  ELSE LET bs == EvalV(n.e, ctx, sch) IN Strict([i \in 1..Len(bs) |-> ~bs[i]])     \* not
 
 (* Filter::execute on a context whose mandatory fields are set *)
 EvalFilter(node, ctx, sch) == EvalB(node, ctx, sch)
